@@ -996,8 +996,8 @@ func TestVerifC13BatchTransparency(t *testing.T) {
 		ref := newReplica("ref")
 		var log []verifC13Cmd
 		var want [][]byte
-		durableRef := []uint64{0}  // durableRef[i] = durable applied index after i accepted commands
-		snapAt := map[int][]byte{} // prefix length -> snapshot bytes
+		durableRef := []uint64{0}     // durableRef[i] = durable applied index after i accepted commands
+		snapAt := map[int][]byte{}    // prefix length -> snapshot bytes
 		wrongAt := map[int][][]byte{} // prefix length -> well-formed snapshots of other hash-slot sets
 		var bumpRow []string          // per accepted command: person row whose directory generation it advanced
 		snapTargets := map[int]bool{}
